@@ -107,6 +107,18 @@ func corpusCases() []*c20Case {
 		mk("NSX", "target rule names device-only group", nsxConf(nsxGroup("Netspoc-g1", `"10.1.1.1"`), nsxRule("r1", g+"Netspoc-g1")),
 			map[string]string{"code/router": nsxConf("", nsxRule("r1", g+"Netspoc-g1"))}),
 		mk("IOS", "garbage info file", "", map[string]string{"code/router": "", "code/router.info": "NO_JSON\n"}),
+		mk("IOS", "info file null", "", map[string]string{"code/router": "", "code/router.info": "null"}),
+		mk("PAN-OS", "empty <devices> plus raw vsys", "", map[string]string{"code/router": "<config><devices></devices></config>",
+			"code/router.raw": `<config><devices><entry name="x"><vsys><entry name="vsys1"></entry></vsys></entry></devices></config>`}),
+		mk("NSX", "null in groups", "", map[string]string{"code/router": `{"groups":[null]}`}),
+		mk("NSX", "null in expression", "", map[string]string{"code/router": `{"groups":[{"id":"Netspoc-g1","expression":[null]}]}`}),
+		mk("NSX", "null in rules", "", map[string]string{"code/router": `{"policies":[{"id":"Netspoc-v1","rules":[null]}]}`}),
+		mk("NSX", "null in policies, services", `{"services":[null]}`, map[string]string{"code/router": `{"policies":[null]}`}),
+		mk("Linux", "iptables -A without chain", "", map[string]string{"code/router": "*filter\n:INPUT DROP\n-A\n"}),
+		mk("Linux", "iptables trailing !", "", map[string]string{"code/router": "*filter\n:INPUT DROP\n-A INPUT -s 10.1.1.1 !\n"}),
+		mk("Linux", "short route", "", map[string]string{"code/router": "ip route add 10.1.1.0/24 via\n"}),
+		mk("IOS", "duplicate ACL line that is moved", "ip access-list extended test\n permit tcp any host 10.3.4.3\n deny ip host 10.1.2.3 any\ninterface Ethernet1\n ip access-group test in\n",
+			map[string]string{"code/router": "ip access-list extended test\n deny ip host 10.1.2.3 any\n deny ip host 10.1.2.3 any\n permit tcp any host 10.3.4.3\ninterface Ethernet1\n ip access-group test in\n"}),
 		mk("ASA", "[APPEND] without permit (F-C18a)", "", map[string]string{"code/router": "access-list X extended deny ip any4 any4\naccess-group X global\n",
 			"code/router.raw": "[APPEND]\naccess-list X extended deny ip any4 host 10.1.1.1\naccess-group X global\n"}),
 		mk("ASA", "incomplete string (pinned by the suite)", "ldap attribute-map M\n map-name memberOf Group-Policy\n map-value memberOf \"CN=a b\n", map[string]string{"code/router": ""}),
